@@ -1107,6 +1107,13 @@ pub extern "C" fn recv_time_limit(fd: c_int) -> u64 {
     )
 }
 
+/// Verification accessor for the crate-private `get_time_limit`.
+#[cfg(feature = "verif")]
+#[must_use]
+pub fn verif_get_time_limit(tv: &libc::timeval) -> u64 {
+    get_time_limit(tv)
+}
+
 pub(crate) fn get_time_limit(tv: &libc::timeval) -> u64 {
     let mut time_limit = u64::try_from(tv.tv_sec)
         .expect("overflow")
